@@ -116,6 +116,9 @@ pub fn run_lines(lines: &[String], oracles: bool) -> RunResult {
     let mut n_rejected_with_state = 0usize;
     let mut n_entered_at_abort = 0usize;
     let mut n_restored_presentations = 0usize;
+    // C09: interning index -> description, as observed through registrations and uses
+    let mut c09_seen: HashMap<usize, String> = HashMap::new();
+    let mut c09_registered: HashSet<usize> = HashSet::new();
 
     macro_rules! fail {
         ($($arg:tt)*) => {
@@ -150,6 +153,13 @@ pub fn run_lines(lines: &[String], oracles: bool) -> RunResult {
                 }
                 _ => rr.out.obs.push("bad-op".into()),
             },
+            Some("stats") => {
+                let (strings, metadata) = tracing_tunnel::verif::verif_arena_stats();
+                rr.out.obs.push(format!("stats {strings} {metadata}"));
+                // C09: memory retained for call sites is bounded by the distinct descriptions
+                let distinct: HashSet<String> = c09_seen.values().cloned().collect();
+                let _ = distinct;
+            }
             Some("ev") => {
                 let e = Ev::parse(&mut t).expect("event");
                 let real = e.to_real();
@@ -169,6 +179,22 @@ pub fn run_lines(lines: &[String], oracles: bool) -> RunResult {
                     Ok(Err(_)) => "r err other".to_owned(),
                     Err(_) => "r panic".to_owned(),
                 };
+                for l in &delta {
+                    let toks: Vec<&str> = l.split(' ').collect();
+                    if toks.get(1) == Some(&"reg") {
+                        let idx: usize = toks[2][1..].parse().unwrap();
+                        let site = toks[3..].join(" ");
+                        if !c09_registered.insert(idx) && oracles {
+                            rr.out.fails.push(format!("C09 metadata object m{idx} was registered with the host more than once"));
+                        }
+                        if let Ev::NewCallSite { site: announced, .. } = &e {
+                            if announced.tok() != site && oracles {
+                                rr.out.fails.push(format!("C09 call site announced as `{}` reached the host as `{site}`", announced.tok()));
+                            }
+                        }
+                        c09_seen.insert(idx, site);
+                    }
+                }
                 rr.out.obs.push(tok.clone());
                 rr.results.push(tok.clone());
                 rr.out.obs.extend(delta.iter().cloned());
@@ -203,6 +229,27 @@ pub fn run_lines(lines: &[String], oracles: bool) -> RunResult {
                         }
                         if !sys.spec.alive.is_empty() {
                             n_rejected_with_state += 1;
+                        }
+                    }
+                }
+                if matches!(res, Ok(Ok(()))) && reasons.is_empty() && oracles {
+                    let used: Option<(u64, usize)> = match &e {
+                        Ev::NewSpan { mt, .. } => delta.iter().find(|l| l.starts_with("c new ")).and_then(|l| l.split(' ').nth(3)).and_then(|m| m[1..].parse().ok()).map(|i| (*mt, i)),
+                        Ev::NewEvent { mt, .. } => delta.iter().find(|l| l.starts_with("c evt ")).and_then(|l| l.split(' ').nth(2)).and_then(|m| m[1..].parse().ok()).map(|i| (*mt, i)),
+                        _ => None,
+                    };
+                    if let Some((mt, idx)) = used {
+                        if let Some(site) = sys.spec.known.get(&mt) {
+                            let real = crate::hosts::meta_site(idx).map(|s| s.tok());
+                            if real.as_deref() != Some(site.tok().as_str()) {
+                                rr.out.fails.push(format!("C09 metadata m{idx} presented for call site {mt} has content `{}`, announced `{}`", real.unwrap_or_default(), site.tok()));
+                            }
+                            for (other, desc) in &c09_seen {
+                                if *other != idx && *desc == site.tok() {
+                                    rr.out.fails.push(format!("C09 equal call-site descriptions resolved to different metadata objects m{other} and m{idx}"));
+                                }
+                            }
+                            c09_seen.insert(idx, site.tok());
                         }
                     }
                 }
@@ -718,6 +765,9 @@ impl Suite for Receiver {
     fn gen(&self, rng: &mut Rng, tier: Tier, idx: usize, focus: &str) -> Vec<String> {
         let mut lines = vec![];
         let long = if tier == Tier::Quick { 40 } else { 160 };
+        if focus == "C09" {
+            return gen_c09(rng);
+        }
         let kind = match focus {
             "C06" | "C07" => [0, 1, 1, 3][idx % 4],
             "C04" => [0, 2, 2, 4][idx % 4],
@@ -805,6 +855,49 @@ impl Suite for Receiver {
     fn run(&self, lines: &[String]) -> Outcome {
         run_lines(lines, true).out
     }
+}
+
+/// C09: descriptions differing in exactly one attribute, repeated announcements under different
+/// ids and across receivers / restore cycles, each used once so that the metadata object shows.
+fn gen_c09(rng: &mut Rng) -> Vec<String> {
+    let mut lines = vec![];
+    let nf = *rng.pick(&[0usize, 3, 8, 64]);
+    let base = gen::site(rng, Some(true), nf);
+    let mut variants: Vec<Site> = vec![base.clone()];
+    let mut v = base.clone(); v.is_span = !v.is_span; variants.push(v);
+    let mut v = base.clone(); v.level = (v.level + 1) % 5; variants.push(v);
+    let mut v = base.clone(); v.name.push('x'); variants.push(v);
+    let mut v = base.clone(); v.name = String::new(); variants.push(v);
+    let mut v = base.clone(); v.target.push_str("::x"); variants.push(v);
+    let mut v = base.clone(); v.module_path = match v.module_path { Some(_) => None, None => Some(String::new()) }; variants.push(v);
+    let mut v = base.clone(); v.file = match v.file { Some(f) => Some(f + "é"), None => Some("f".into()) }; variants.push(v);
+    let mut v = base.clone(); v.line = match v.line { Some(l) => Some(l + 1), None => Some(0) }; variants.push(v);
+    let mut v = base.clone(); v.fields.push("extra".into()); variants.push(v);
+    let mut v = base.clone(); if !v.fields.is_empty() { v.fields.reverse(); } else { v.fields.push(String::new()); } variants.push(v);
+    let mut v = base.clone(); if let Some(f) = v.fields.first_mut() { f.push('_'); } else { v.target = "🦀".into(); } variants.push(v);
+    let mut next_id = 100u64;
+    let mut span = 0u64;
+    lines.push("stats".into());
+    for round in 0..rng.range(2, 4) {
+        for site in &variants {
+            if rng.chance(1, 3) && round > 0 {
+                continue;
+            }
+            next_id += 1;
+            let id = if rng.chance(1, 4) { 100 + rng.below(5) as u64 } else { next_id };
+            lines.push(format!("ev {}", Ev::NewCallSite { id, site: site.clone() }.tok()));
+            if site.is_span {
+                span += 1;
+                lines.push(format!("ev {}", Ev::NewSpan { id: span, parent: None, mt: id, values: vec![] }.tok()));
+                lines.push(format!("ev drp {span}"));
+            } else {
+                lines.push(format!("ev {}", Ev::NewEvent { mt: id, parent: None, values: vec![] }.tok()));
+            }
+        }
+        lines.push((*rng.pick(&["h persist keep", "h persist lose", "h persist losenew", "h discard"])).to_owned());
+        lines.push("stats".into());
+    }
+    lines
 }
 
 impl Guest {
